@@ -72,10 +72,10 @@ def c04(tier):
         seed = int(__import__("os").environ.get("VERIF_SEED", "0") or 0)
         for ti, tpl in enumerate(raw_structures(3)):
             for ci, (dl, cm, om) in enumerate(cfgs):
-                if len(tpl) == 3 and ci != (ti + seed) % len(cfgs) and ci != 0: continue     # length 3: default config + one rotating config
-                insts.append(p_raw(tpl, dl, cm, om, timeout=400))
-        insts.append(p_raw("..", "eq", "hash", 0, follow=("FOLLOW_GETTERS",), timeout=400))
-        insts.append(p_raw("..", "eq", "hash", 0, follow=("FOLLOW_WRITE",), timeout=400))
+                if len(tpl) == 3 and ci != (ti + seed) % len(cfgs): continue     # length 3: one rotating configuration per structure
+                insts.append(p_raw(tpl, dl, cm, om, timeout=800))
+        insts.append(p_raw("..", "eq", "hash", 0, follow=("FOLLOW_GETTERS",), timeout=800))
+        insts.append(p_raw("..", "eq", "hash", 0, follow=("FOLLOW_WRITE",), timeout=800))
     else:
         for tpl in raw_structures(6):
             for dl in DELIMS:
